@@ -17,6 +17,21 @@ exact-integer evaluation of the core chain, `gen.dense` / `gen.dense_exact`):
 * random expression trees over add / sub / mul / outer / copy / number operands (depth <= 3 quick, <= 4
   thorough) against the same tree evaluated on dense arrays.
 
+Parameter / regime coverage added by the audit of the signatures (every case family below is in the quick tier):
+* overall scale: every clause above also with all cores multiplied by 1e-2 / 1e2 / 1e-20 / 1e20 / 2^-10 / 1e-5 (totals
+  1e-100 .. 1e+100), add / sub / mul with operands of unequal magnitude (scale, 1/scale) - absolute thresholds would show;
+* `norm` / `mul_scalar` with use_stab=True (pair result, per-core factors 2^-80 .. 2^240: `C01.mul_scalar_norm.stab_pair`);
+* number operands 1e-20 .. 1e+20 on both sides of the magnitude switch of the constant tensor, numpy.float64 numbers
+  (`C01.add_sub_mul.number_forms`);
+* index batches of dtype int32 / uint16, F-ordered and non-contiguous, lists of numpy integers; weights as one 2-D array,
+  one flat list of Python ints / floats / one 1-D array for all modes;
+* mode sizes 256 .. 1030 (thorough 2048) in every standard clause;
+* d = 28 .. 130 without any dense reference (`C01.reductions.many_modes`, `C01.algebra.many_modes`): get / get_many /
+  add / sub / mul / outer / interface (all norms, directions, P, i) / get_and_grad / mul_scalar / accuracy / shape /
+  ranks / size / erank against exact integer arithmetic on the core chain.
+Not covered on purpose: `get_and_grad(check_phi=True)` (documented "should be False"; raises NameError on the pinned
+tree), the private `_to_item` flag, `getter` (needs numba, deprecated).
+
 Equality regime: integer-valued cores in [-3,3] are compared with the exact Python-integer oracle by `==`
 whenever every partial sum is below 2^53 (then any evaluation order is exact); otherwise, and for Gaussian
 cores, the tolerance is c*eps*S with S the same expression evaluated on |cores| (sum of |products|).
@@ -35,11 +50,15 @@ BOUNDS = ('d in {2,3,4} (thorough: 5), mode sizes 1..4 incl. all-ones and leadin
           'ragged / over-ranked, memory orders C/F/V, integer cores in [-3,3] (exact ==) and Gaussian cores '
           '(c*eps*sum|products|); every multi-index of every tensor; expression trees depth <= 3 (thorough 4); '
           'per clause ~ 150 systematic + 120 seeded cases quick, ~ 700 + 600 thorough; reductions also for d = 28 .. 130 '
-          '(2^63 .. 3^100 entries) against exact rational arithmetic')
+          '(2^63 .. 3^100 entries) against exact rational arithmetic; element access / algebra / interface / get_and_grad / '
+          'accuracy / erank for the same d against exact integers; per-core scales 1e-20 .. 1e20 and mixed magnitudes; '
+          'mode sizes up to 1030 (thorough 2048); stabilised pair results with per-core 2^-80 .. 2^240; number operands '
+          '1e-150 .. 1e20 and numpy.float64; index dtypes int32 / uint16 / views')
 
 EPS = np.finfo(float).eps
 LIM = 2 ** 53
 ORDERS = ('C', 'F', 'V')
+SCALES = (1e-2, 1e2, 1e-20, 1e20, 2.0 ** -10, 1e-5)
 
 
 # ----------------------------------------------------------------------------- oracles
@@ -122,7 +141,11 @@ def _weights(n, seed, kind, extra=0):
     return [[float(x) for x in g.uniform(-1, 1, size=k + extra)] for k in n]
 
 
-def _tt_pair(n, r, seed, kind, order):
+def _tt_pair(n, r, seed, kind, order, scale=1.0):
+    """(Y, D, B).  scale != 1 multiplies EVERY core (total factor scale^d); the reference is then the float chain."""
+    if scale != 1.0:
+        Y = gen.tt(n, r, seed, kind, scale=float(scale), order=order)
+        return Y, gen.dense(Y), gen.absdense(Y)
     Y = gen.tt(n, r, seed, kind, order=order)
     D, B = _ref(Y, kind)
     return Y, D, B
@@ -137,16 +160,23 @@ def _other_ranks(n, r, seed):
 # ----------------------------------------------------------------------------- element access, export
 
 @clause('C01.get.all_indices', funcs=('act_one.get', 'act_one.get_many'))
-def get_all(n, r, seed, kind, order):
+def get_all(n, r, seed, kind, order, scale=1.0):
     """get (single index as list / array, 2-D batch, list of lists), get_many (batch, batch of one, empty
-    batch) return val(Y, i) for every multi-index i."""
-    Y, D, B = _tt_pair(n, r, seed, kind, order)
+    batch; index arrays of dtype int64 / int32 / uint16, non-contiguous / F-ordered) return val(Y, i) for
+    every multi-index i."""
+    Y, D, B = _tt_pair(n, r, seed, kind, order, scale)
     snap = gen.snapshot(Y)
     I = gen.all_indices(n)
     want, bnd = D[tuple(I.T)], B[tuple(I.T)]
+    Iv = np.zeros((I.shape[0], 2 * I.shape[1]), dtype=int)
+    Iv[:, ::2] = I
     for name, got in (('get_many(array)', teneva.get_many(Y, I)), ('get(2-D array)', teneva.get(Y, I)),
                       ('get_many(list of lists)', teneva.get_many(Y, I.tolist())),
-                      ('get(list of lists)', teneva.get(Y, I.tolist()))):
+                      ('get(list of lists)', teneva.get(Y, I.tolist())),
+                      ('get_many(int32 array)', teneva.get_many(Y, I.astype(np.int32))),
+                      ('get(uint16 array)', teneva.get(Y, I.astype(np.uint16))),
+                      ('get_many(non-contiguous view)', teneva.get_many(Y, Iv[:, ::2])),
+                      ('get_many(F-ordered array)', teneva.get_many(Y, np.asfortranarray(I)))):
         if not isinstance(got, np.ndarray) or got.ndim != 1:
             return FAIL(f'{name}: result is not a 1-D array')
         msg = _agree(got, want, bnd, what=name)
@@ -154,7 +184,8 @@ def get_all(n, r, seed, kind, order):
             return FAIL(msg)
     step = max(1, len(I) // 24)
     for s in list(range(0, len(I), step)) + [len(I) - 1]:
-        for name, i in (('get(list)', I[s].tolist()), ('get(array)', I[s]), ('get(tuple)', tuple(I[s].tolist()))):
+        for name, i in (('get(list)', I[s].tolist()), ('get(array)', I[s]), ('get(tuple)', tuple(I[s].tolist())),
+                        ('get(int32 array)', I[s].astype(np.int32)), ('get(list of numpy ints)', list(I[s]))):
             got = teneva.get(Y, i)
             if np.ndim(got) != 0:
                 return FAIL(f'{name}: single index does not give a scalar')
@@ -180,9 +211,9 @@ def get_all(n, r, seed, kind, order):
 
 
 @clause('C01.full.dense', funcs=('transformation.full',))
-def full_dense(n, r, seed, kind, order):
+def full_dense(n, r, seed, kind, order, scale=1.0):
     """full(Y) is the dense tensor of shape n_1 x ... x n_d (also when boundary modes have size 1)."""
-    Y, D, B = _tt_pair(n, r, seed, kind, order)
+    Y, D, B = _tt_pair(n, r, seed, kind, order, scale)
     Z = teneva.full(Y)
     if not isinstance(Z, np.ndarray) or Z.shape != tuple(n):
         return FAIL(f'full has shape {getattr(Z, "shape", None)} for mode sizes {n}')
@@ -193,10 +224,11 @@ def full_dense(n, r, seed, kind, order):
 # ----------------------------------------------------------------------------- reductions
 
 @clause('C01.sum_mean.weights', funcs=('act_one.sum', 'act_one.mean'))
-def sum_mean(n, r, seed, kind, order):
+def sum_mean(n, r, seed, kind, order, scale=1.0):
     """sum = total of all entries; mean = total / number of entries; mean(norm=False) = sum; mean(P) = weighted
-    total with P as list of lists / list of arrays, also when P[k] is longer than the mode (first n_k used)."""
-    Y, D, B = _tt_pair(n, r, seed, kind, order)
+    total with P as list of lists / list of arrays / one 2-D array (equal modes), also when P[k] is
+    longer than the mode (first n_k used)."""
+    Y, D, B = _tt_pair(n, r, seed, kind, order, scale)
     tot, btot = D.sum(), B.sum()
     msg = _agree(teneva.sum(Y), tot, btot, what='sum') or _agree(teneva.mean(Y, norm=False), tot, btot, what='mean(norm=False)')
     if msg:
@@ -214,7 +246,10 @@ def sum_mean(n, r, seed, kind, order):
         P = _weights(n, seed, kind, extra)
         want = _wsum(D, P)
         bnd = _wsum(B, [[abs(x) for x in p] for p in P])
-        for name, PP in (('list of lists', P), ('list of arrays', [np.array(p, dtype=float) for p in P])):
+        forms = [('list of lists', P), ('list of arrays', [np.array(p, dtype=float) for p in P])]
+        if len(set(n)) == 1:
+            forms.append(('2-D array', np.array(P, dtype=float)))
+        for name, PP in forms:
             msg = _agree(teneva.mean(Y, PP), want, bnd, what=f'mean(P {name}, extra={extra})')
             if msg:
                 return FAIL(msg)
@@ -276,10 +311,10 @@ def many_modes(d, nk, seed):
 
 
 @clause('C01.mul_scalar_norm.dense', funcs=('act_two.mul_scalar', 'act_one.norm'))
-def dot_norm(n, r, seed, kind, order):
+def dot_norm(n, r, seed, kind, order, scale=1.0):
     """mul_scalar(Y1, Y2) = sum of the element-wise product (unequal rank profiles), norm(Y)^2 = sum of squares."""
-    Y1, D1, B1 = _tt_pair(n, r, seed, kind, order)
-    Y2, D2, B2 = _tt_pair(n, _other_ranks(n, r, seed), seed + 1, kind, ORDERS[(ORDERS.index(order) + 1) % 3])
+    Y1, D1, B1 = _tt_pair(n, r, seed, kind, order, scale)
+    Y2, D2, B2 = _tt_pair(n, _other_ranks(n, r, seed), seed + 1, kind, ORDERS[(ORDERS.index(order) + 1) % 3], scale)
     msg = _agree(teneva.mul_scalar(Y1, Y2), (D1 * D2).sum(), (B1 * B2).sum(), c=256, what='mul_scalar') \
         or _agree(teneva.mul_scalar(Y2, Y1), (D1 * D2).sum(), (B1 * B2).sum(), c=256, what='mul_scalar swapped')
     if msg:
@@ -292,6 +327,8 @@ def dot_norm(n, r, seed, kind, order):
         got = teneva.norm(Y)
         if np.ndim(got) != 0 or not np.isfinite(got) or got < 0:
             return FAIL(f'norm = {got}')
+        if got == 0 and float(s2) > 0:
+            return FAIL(f'norm = 0 for a tensor with sum of squares {float(s2)!r}')
         if _exact(D) and b2 < LIM:
             if float(got) != math.sqrt(s2):
                 return FAIL(f'norm {got} != sqrt({s2}) (exact integer sum of squares)')
@@ -303,11 +340,49 @@ def dot_norm(n, r, seed, kind, order):
     return PASS
 
 
+@clause('C01.mul_scalar_norm.stab_pair', funcs=('act_two.mul_scalar', 'act_one.norm'))
+def dot_norm_stab(n, r, seed, kind, order, ex):
+    """use_stab=True: mul_scalar returns (v, p) with v 2^p = <Y1, Y2>, norm returns (m, q) with m 2^q = ||Y||, also
+    when every core carries the factor 2^ex (the totals 2^(2 d ex) may leave the double range; the reference is taken
+    from the unscaled cores and exact exponent arithmetic)."""
+    Y1, D1, B1 = _tt_pair(n, r, seed, kind, order)
+    Y2, D2, B2 = _tt_pair(n, _other_ranks(n, r, seed), seed + 1, kind, ORDERS[(ORDERS.index(order) + 1) % 3])
+    d = len(n)
+    S1, S2 = [np.ldexp(G, ex) for G in Y1], [np.ldexp(G, ex) for G in Y2]
+    snap = gen.snapshot([S1, S2])
+    out = teneva.mul_scalar(S1, S2, use_stab=True)
+    if not isinstance(out, tuple) or len(out) != 2:
+        return FAIL('mul_scalar(use_stab=True) does not return a pair')
+    v, p = out
+    if isinstance(p, bool) or not isinstance(p, (int, np.integer)) or np.ndim(v) != 0:
+        return FAIL(f'mul_scalar(use_stab=True) = ({v!r}, {p!r}): exponent not an integer / value not a scalar')
+    want, bnd = float((D1 * D2).sum()), float((B1 * B2).sum())
+    got = math.ldexp(float(v), int(p) - 2 * d * ex)
+    if not (np.isfinite(got) and abs(got - want) <= 256 * d * EPS * bnd):
+        return FAIL(f'mul_scalar stab: v 2^p = {got!r} (v = {v!r}, p = {p}, ex = {ex}), want {want!r}')
+    for Y, D, B in ((S1, D1, B1), (S2, D2, B2)):
+        out = teneva.norm(Y, use_stab=True)
+        if not isinstance(out, tuple) or len(out) != 2:
+            return FAIL('norm(use_stab=True) does not return a pair')
+        m, q = out
+        s2, b2 = float((D * D).sum()), float((B * B).sum())
+        if not (np.ndim(m) == 0 and np.isfinite(m) and m >= 0 and np.isfinite(q)):
+            return FAIL(f'norm stab = ({m!r}, {q!r})')
+        got2 = (float(m) * 2.0 ** (float(q) - d * ex)) ** 2
+        if not abs(got2 - s2) <= 512 * d * EPS * b2:
+            return FAIL(f'norm stab: (m 2^q)^2 = {got2!r} (m = {m!r}, q = {q}, ex = {ex}), want {s2!r}')
+        if s2 > 0 and m == 0:
+            return FAIL('norm stab: zero mantissa for a non-zero tensor')
+    if gen.snapshot([S1, S2]) != snap:
+        return FAIL('an input changed')
+    return PASS
+
+
 @clause('C01.accuracy.dense', funcs=('act_two.accuracy', 'data.accuracy_on_data'))
-def accuracy_dense(n, r, seed, kind, order, near):
+def accuracy_dense(n, r, seed, kind, order, near, scale=1.0):
     """accuracy(Y1, Y2) = ||D1-D2|| / ||D2|| for TT and ndarray arguments; accuracy_on_data = relative
     residual on the data set, -1 without data, e_trunc path within the truncation accuracy."""
-    Y1, D1, B1 = _tt_pair(n, r, seed, kind, order)
+    Y1, D1, B1 = _tt_pair(n, r, seed, kind, order, scale)
     if near == 'copy':
         Y2 = [G.copy() for G in Y1]
         D2, B2 = D1, B1
@@ -316,7 +391,7 @@ def accuracy_dense(n, r, seed, kind, order, near):
         Y2[0] = Y2[0] * 2
         D2, B2 = D1 * 2, B1 * 2
     else:
-        Y2, D2, B2 = _tt_pair(n, _other_ranks(n, r, seed), seed + 1, kind, ORDERS[(ORDERS.index(order) + 2) % 3])
+        Y2, D2, B2 = _tt_pair(n, _other_ranks(n, r, seed), seed + 1, kind, ORDERS[(ORDERS.index(order) + 2) % 3], scale)
     S1, S2 = ((D1 - D2) ** 2).sum(), (D2 ** 2).sum()
     T1, T2 = float(((B1 + B2) ** 2).sum()), float((B2 ** 2).sum())
     if float(S2) <= 1e-6 * T2 or T2 == 0:
@@ -374,10 +449,14 @@ def _dense_of(Z, n, what):
 
 
 @clause('C01.add_sub_mul.tensor_tensor', funcs=('act_two.add', 'act_two.sub', 'act_two.mul'))
-def algebra_tt(n, r, seed, kind, order):
-    """add / sub / mul of two tensors with unequal rank profiles act element-wise; inputs untouched."""
-    Y1, D1, B1 = _tt_pair(n, r, seed, kind, order)
-    Y2, D2, B2 = _tt_pair(n, _other_ranks(n, r, seed), seed + 1, kind, ORDERS[(ORDERS.index(order) + 1) % 3])
+def algebra_tt(n, r, seed, kind, order, scale=1.0, scale2=None):
+    """add / sub / mul of two tensors with unequal rank profiles (and unequal magnitudes) act element-wise; inputs
+    untouched."""
+    Y1, D1, B1 = _tt_pair(n, r, seed, kind, order, scale)
+    Y2, D2, B2 = _tt_pair(n, _other_ranks(n, r, seed), seed + 1, kind, ORDERS[(ORDERS.index(order) + 1) % 3],
+                          scale if scale2 is None else scale2)
+    if _exact(D1) != _exact(D2):                        # one operand scaled, the other exact: compare in floats
+        D1, B1, D2, B2 = _tofloat(D1), _tofloat(B1), _tofloat(D2), _tofloat(B2)
     snap = gen.snapshot([Y1, Y2])
     rmax = max(max(G.shape) for G in Y1) * max(max(G.shape) for G in Y2)
     c = 16.0 * len(n) * max(4, rmax)
@@ -402,10 +481,10 @@ NUMS = [2, -3, 1, -1, 0, 0.5, -1.5, 2.0, 1.0, -1.0, 0.0, 3]
 
 
 @clause('C01.add_sub_mul.number_operands', funcs=('act_two.add', 'act_two.sub', 'act_two.mul'))
-def algebra_num(n, r, seed, kind, order):
+def algebra_num(n, r, seed, kind, order, scale=1.0):
     """tensor (+,-,*) number, number (+,-,*) tensor act element-wise with the number broadcast; number with
     number is plain Python arithmetic."""
-    Y, D, B = _tt_pair(n, r, seed, kind, order)
+    Y, D, B = _tt_pair(n, r, seed, kind, order, scale)
     snap = gen.snapshot(Y)
     d = len(n)
     rmax = max(max(G.shape) for G in Y) + 1
@@ -439,12 +518,40 @@ def algebra_num(n, r, seed, kind, order):
     return PASS
 
 
+NUMS_FORMS = [1e-20, -1e-20, 1e-16, -1e-16, 3e-16, 1e-12, 1e20, -1e20, 1e-150]
+
+
+@clause('C01.add_sub_mul.number_forms', funcs=('act_two.add', 'act_two.sub', 'act_two.mul'))
+def algebra_num_forms(n, r, seed, kind, order, scale=1.0):
+    """Number operands of tiny / huge modulus (on both sides of every magnitude switch of the constant tensor) and
+    of type numpy.float64 act element-wise like the plain number."""
+    Y, D, B = _tt_pair(n, r, seed, kind, order, scale)
+    snap = gen.snapshot(Y)
+    d = len(n)
+    rmax = max(max(G.shape) for G in Y) + 1
+    c = 16.0 * d * max(4, rmax)
+    Df, Bf = _tofloat(D), _tofloat(B)
+    for v in NUMS_FORMS + [np.float64(2.5), np.float64(-1.0), np.float64(1e-18)]:
+        a = abs(float(v))
+        table = (('add(Y,v)', teneva.add(Y, v), Df + float(v), Bf + a), ('add(v,Y)', teneva.add(v, Y), Df + float(v), Bf + a),
+                 ('sub(Y,v)', teneva.sub(Y, v), Df - float(v), Bf + a), ('sub(v,Y)', teneva.sub(v, Y), float(v) - Df, Bf + a),
+                 ('mul(Y,v)', teneva.mul(Y, v), Df * float(v), Bf * a), ('mul(v,Y)', teneva.mul(v, Y), Df * float(v), Bf * a))
+        for name, Z, W, WB in table:
+            A, msg = _dense_of(Z, n, f'{name} v={v!r}')
+            msg = msg or _agree(A, W, WB, c=c, what=f'{name} v={v!r}')
+            if msg:
+                return FAIL(msg)
+        if gen.snapshot(Y) != snap:
+            return FAIL(f'input changed (v={v!r})')
+    return PASS
+
+
 @clause('C01.outer.dense', funcs=('act_two.outer', 'act_many.outer_many'))
-def outer_dense(n, r, seed, kind, order, n2):
+def outer_dense(n, r, seed, kind, order, n2, scale=1.0):
     """outer(Y1, Y2)[i,j] = Y1[i] Y2[j]; outer_many of 1, 2, 3 tensors; inputs untouched."""
-    Y1, D1, B1 = _tt_pair(n, r, seed, kind, order)
-    Y2, D2, B2 = _tt_pair(n2, _other_ranks(n2, [1] * (len(n2) + 1), seed), seed + 1, kind, ORDERS[(ORDERS.index(order) + 1) % 3])
-    Y3, D3, B3 = _tt_pair(n[::-1], r[::-1], seed + 2, kind, order)
+    Y1, D1, B1 = _tt_pair(n, r, seed, kind, order, scale)
+    Y2, D2, B2 = _tt_pair(n2, _other_ranks(n2, [1] * (len(n2) + 1), seed), seed + 1, kind, ORDERS[(ORDERS.index(order) + 1) % 3], scale)
+    Y3, D3, B3 = _tt_pair(n[::-1], r[::-1], seed + 2, kind, order, scale)
     snap = gen.snapshot([Y1, Y2, Y3])
     mo = np.multiply.outer
     table = (('outer(Y1,Y2)', teneva.outer(Y1, Y2), mo(D1, D2), mo(B1, B2), n + n2),
@@ -495,13 +602,13 @@ def _unnormalised(Yo, W, ltr, exact):
 
 
 @clause('C01.interface.vectors', funcs=('act_one.interface',))
-def interface_vectors(n, r, seed, kind, order, mode, norm, ltr):
+def interface_vectors(n, r, seed, kind, order, mode, norm, ltr, scale=1.0):
     """interface(Y, P, i, norm, ltr): d+1 vectors, the k-th is the (weighted / indexed) total of the sub-train
     on one side of bond k; 'natural' divides by the product of the mode sizes passed, 'linalg' normalises to
     unit length, None leaves the totals.  SKIP when a 'linalg' vector is (numerically) zero."""
-    Y, D, B = _tt_pair(n, r, seed, kind, order)
+    Y, D, B = _tt_pair(n, r, seed, kind, order, scale)
     d = len(n)
-    exact = kind == 'int'
+    exact = kind == 'int' and scale == 1.0
     g = gen.rng('iface', n, r, seed, mode)
     i = [int(g.integers(0, k)) for k in n]
     P = i_arg = None
@@ -512,11 +619,17 @@ def interface_vectors(n, r, seed, kind, order, mode, norm, ltr):
         W = P
         if mode == 'Parr':
             P = [np.array(p, dtype=float) for p in P]
-    elif mode == 'Pflat':
+    elif mode in ('Pflat', 'PflatI', 'PflatA', 'P2d'):
         if len(set(n)) != 1:
             return SKIP('one weight vector for all modes needs equal mode sizes')
-        p = _weights(n[:1], seed, kind)[0]
-        P, W = [float(x) for x in p], [p] * d
+        if mode == 'P2d':                   # one 2-D array: row k = weights of mode k
+            W = _weights(n, seed, kind)
+            P = np.array(W, dtype=float)
+        else:
+            p = _weights(n[:1], seed, 'int' if mode == 'PflatI' else kind)[0]
+            W = [p] * d
+            # the same weights for all modes as a list of floats / of Python ints / as a 1-D float array
+            P = [float(x) for x in p] if mode == 'Pflat' else ([int(x) for x in p] if mode == 'PflatI' else np.array(p, dtype=float))
     elif mode in ('i', 'iarr'):
         W = [[1 if j == i[k] else 0 for j in range(n[k])] for k in range(d)]
         i_arg = i if mode == 'i' else np.array(i)
@@ -565,12 +678,12 @@ def interface_vectors(n, r, seed, kind, order, mode, norm, ltr):
 
 
 @clause('C01.get_and_grad.exact', funcs=('act_one.get_and_grad',))
-def get_and_grad_exact(n, r, seed, kind, order):
+def get_and_grad_exact(n, r, seed, kind, order, scale=1.0):
     """value = val(Y, i); the gradient tensor has the core shapes, its slice at i_k is the derivative of val
     w.r.t. the core entries (= value of the train with core k replaced by a unit core), zero elsewhere."""
-    Y, D, B = _tt_pair(n, r, seed, kind, order)
+    Y, D, B = _tt_pair(n, r, seed, kind, order, scale)
     d = len(n)
-    exact = kind == 'int'
+    exact = kind == 'int' and scale == 1.0
     Yo = _obj(Y) if exact else [np.asarray(G) for G in Y]
     Ya = [np.abs(G) for G in Yo]
     I = gen.all_indices(n)
@@ -610,6 +723,226 @@ def get_and_grad_exact(n, r, seed, kind, order):
                     return FAIL(msg)
         if gen.snapshot(Y) != snap:
             return FAIL('input changed')
+    return PASS
+
+
+# ----------------------------------------------------------------------------- many modes (no dense reference)
+
+def _ochain(Yo, i, lo=0, hi=None):
+    """Exact product of the slices Yo[k][:, i[k], :], k = lo .. hi-1 (object arrays of Python ints)."""
+    hi = len(Yo) if hi is None else hi
+    v = None
+    for k in range(lo, hi):
+        Mx = Yo[k][:, i[k], :]
+        v = Mx if v is None else v.dot(Mx)
+    return v
+
+
+def _fchain(Z, i):
+    """Own float evaluation of one element of a TT-tensor (row vector times slices)."""
+    v = np.asarray(Z[0])[0, i[0], :]
+    for k in range(1, len(Z)):
+        v = v @ np.asarray(Z[k])[:, i[k], :]
+    return float(v[0])
+
+
+def _oscalar(Ao, Bo):
+    """Exact <A, B> of two integer TT-tensors through the chain of Kronecker transfer matrices."""
+    v = np.array([[1]], dtype=object)
+    for G, H in zip(Ao, Bo):
+        T = np.tensordot(G, H, axes=([1], [1]))                     # (a, b, a2, b2)
+        T = T.transpose(0, 2, 1, 3).reshape(G.shape[0] * H.shape[0], G.shape[2] * H.shape[2])
+        v = v.dot(T)
+    return v[0, 0]
+
+
+@clause('C01.algebra.many_modes', funcs=('act_one.get', 'act_one.get_many', 'act_one.interface', 'act_one.get_and_grad',
+                                         'act_two.add', 'act_two.sub', 'act_two.mul', 'act_two.outer', 'act_two.mul_scalar',
+                                         'act_two.accuracy', 'props.shape', 'props.ranks', 'props.size', 'props.erank'))
+def algebra_many_modes(d, nk, seed):
+    """d = 28 .. 130 modes (the number of entries exceeds every integer type; no dense array exists): element access,
+    add / sub / mul (tensor and number operands), outer, interface vectors (all norms, both directions, P and i),
+    get_and_grad, mul_scalar, accuracy and shape / ranks / size / erank against exact integer arithmetic on the core
+    chain.  Y1 has non-negative cores (relative error <= c d eps), Y2 signed ones (error <= c d eps * chain of |cores|)."""
+    from fractions import Fraction
+    g = gen.rng('C01.manyalg', d, nk, seed)
+    r1 = [1] + [int(x) for x in g.integers(1, 4, size=d - 1)] + [1]
+    r2 = [1] + [int(x) for x in g.integers(1, 3, size=d - 1)] + [1]
+    Y1 = [g.integers(0, 3, size=(r1[k], nk, r1[k + 1])).astype(float) for k in range(d)]
+    Y2 = [g.integers(-2, 3, size=(r2[k], nk, r2[k + 1])).astype(float) for k in range(d)]
+    for G in Y1:
+        G[0, :, 0] = 1.                                  # every element of Y1 is >= 1
+    for G in Y2:
+        G[0, 0, 0] = 1.
+    n = [nk] * d
+    snap = gen.snapshot([Y1, Y2])
+    O1, O2 = _obj(Y1), _obj(Y2)
+    A2 = [abs(G) for G in O2]
+    I = np.array([[0] * d, [nk - 1] * d] + [[int(x) for x in g.integers(0, nk, size=d)] for _ in range(4)], dtype=int)
+    v1 = [_ochain(O1, i)[0, 0] for i in I]
+    v2 = [_ochain(O2, i)[0, 0] for i in I]
+    b2 = [_ochain(A2, i)[0, 0] for i in I]
+    tol = Fraction(64 * d * EPS)
+
+    def close(got, want, bound, what):
+        try:
+            gf = float(got)
+        except Exception:
+            return f'{what}: not a number: {got!r}'
+        if not np.isfinite(gf) or abs(Fraction(gf) - Fraction(want)) > tol * Fraction(bound):
+            return f'{what}: got {gf!r}, exact value {float(Fraction(want))!r} (d={d}, mode size {nk})'
+        return None
+
+    # ---- structure
+    sh, rk, sz = teneva.shape(Y1), teneva.ranks(Y1), teneva.size(Y1)
+    tot = sum(r1[k] * nk * r1[k + 1] for k in range(d))
+    if list(np.asarray(sh).tolist()) != n or list(np.asarray(rk).tolist()) != r1 or sz != tot or float(sz) != int(sz):
+        return FAIL(f'shape / ranks / size wrong for d = {d}: size {sz!r} vs {tot}')
+    er = teneva.erank(Y1)
+    a, b = nk * (d - 2), 2 * nk
+    if not (np.isfinite(er) and er >= 0 and abs(a * er * er + b * er - tot) <= 64 * EPS * (a * er * er + b * er + tot)):
+        return FAIL(f'erank {er!r}: {a} r^2 + {b} r != {tot}')
+    # ---- element access
+    for name, got in (('get_many', teneva.get_many(Y1, I)), ('get(2-D)', teneva.get(Y1, I)),
+                      ('get_many(lists)', teneva.get_many(Y1, I.tolist()))):
+        if np.shape(got) != (len(I),):
+            return FAIL(f'{name}: shape {np.shape(got)}')
+        for j in range(len(I)):
+            msg = close(got[j], v1[j], v1[j], f'{name}[{j}]')
+            if msg:
+                return FAIL(msg)
+    for j in range(len(I)):
+        msg = close(teneva.get(Y1, I[j].tolist()), v1[j], v1[j], 'get(list)') or close(teneva.get(Y2, I[j]), v2[j], b2[j], 'get(Y2, array)')
+        if msg:
+            return FAIL(msg)
+    # ---- algebra (the result is evaluated by the own float chain)
+    for name, Z, want, bnd in (
+            ('add(Y1,Y2)', teneva.add(Y1, Y2), [x + y for x, y in zip(v1, v2)], [x + y for x, y in zip(v1, b2)]),
+            ('sub(Y1,Y2)', teneva.sub(Y1, Y2), [x - y for x, y in zip(v1, v2)], [x + y for x, y in zip(v1, b2)]),
+            ('sub(Y2,Y1)', teneva.sub(Y2, Y1), [y - x for x, y in zip(v1, v2)], [x + y for x, y in zip(v1, b2)]),
+            ('mul(Y1,Y2)', teneva.mul(Y1, Y2), [x * y for x, y in zip(v1, v2)], [x * y for x, y in zip(v1, b2)]),
+            ('mul(Y2,Y2)', teneva.mul(Y2, Y2), [y * y for y in v2], [y * y for y in b2]),
+            ('add(Y1,1)', teneva.add(Y1, 1), [x + 1 for x in v1], [x + 1 for x in v1]),
+            ('sub(3,Y1)', teneva.sub(3, Y1), [3 - x for x in v1], [x + 3 for x in v1]),
+            ('add(2.5,Y2)', teneva.add(2.5, Y2), [Fraction(5, 2) + y for y in v2], [y + 3 for y in b2]),
+            ('mul(Y1,-2)', teneva.mul(Y1, -2), [-2 * x for x in v1], [2 * x for x in v1]),
+            ('mul(0.5,Y2)', teneva.mul(0.5, Y2), [Fraction(y, 2) for y in v2], b2)):
+        msg = gen.wf(Z, n)
+        if msg:
+            return FAIL(f'{name}: result not a well-formed TT: {msg}')
+        for j in range(len(I)):
+            msg = close(_fchain(Z, I[j]), want[j], 4 * bnd[j], f'{name} at index #{j}')
+            if msg:
+                return FAIL(msg)
+    Z = teneva.outer(Y1, Y2)
+    msg = gen.wf(Z, n + n)
+    if msg:
+        return FAIL(f'outer: {msg}')
+    for j in range(len(I)):
+        jj = (j + 1) % len(I)
+        msg = close(_fchain(Z, list(I[j]) + list(I[jj])), v1[j] * v2[jj], v1[j] * b2[jj], 'outer(Y1,Y2)')
+        if msg:
+            return FAIL(msg)
+    # ---- scalar product, accuracy
+    s11, s12, s22 = _oscalar(O1, O1), _oscalar(O1, O2), _oscalar(O2, O2)
+    a12, a22 = _oscalar(O1, A2), _oscalar(A2, A2)
+    msg = close(teneva.mul_scalar(Y1, Y2), s12, a12, 'mul_scalar(Y1,Y2)') or close(teneva.mul_scalar(Y2, Y1), s12, a12, 'mul_scalar(Y2,Y1)')
+    if msg:
+        return FAIL(msg)
+    sdiff, bdiff = s11 - 2 * s12 + s22, s11 + 2 * a12 + a22
+    for name, got, num, nb, den, dbnd in (('accuracy(Y1,Y2)', teneva.accuracy(Y1, Y2), sdiff, bdiff, s22, a22),
+                                          ('accuracy(Y2,Y1)', teneva.accuracy(Y2, Y1), sdiff, bdiff, s11, s11)):
+        if den <= 0:
+            continue
+        gf = float(got)
+        if not (np.isfinite(gf) and gf >= 0):
+            return FAIL(f'{name} = {got!r}')
+        lhs = Fraction(gf) ** 2 * den
+        if abs(lhs - num) > 16 * tol * (nb + Fraction(gf) ** 2 * dbnd):
+            return FAIL(f'{name} = {gf!r}, exact value {math.sqrt(Fraction(num, den))!r}')
+    Y3 = [G.copy() for G in Y1]
+    Y3[d // 2] = Y3[d // 2] * 4.
+    got = teneva.accuracy(Y1, Y3)                          # Y3 = 4 Y1: exactly 3/4
+    if not abs(float(got) - 0.75) <= 64 * d * EPS:
+        return FAIL(f'accuracy(Y, 4Y) = {got!r}, not 0.75')
+    # ---- interface vectors
+    P = [[int(x) for x in g.integers(0, 3, size=nk)] for _ in range(d)]
+    for p_ in P:
+        p_[0] = 1
+    ii = [int(x) for x in I[3]]
+    for mode in ('plain', 'P', 'i', 'iP'):
+        if mode == 'plain':
+            Mo = [G.sum(axis=1) for G in O1]
+        elif mode == 'P':
+            Mo = [sum(P[k][m] * O1[k][:, m, :] for m in range(nk)) for k in range(d)]
+        elif mode == 'i':
+            Mo = [O1[k][:, ii[k], :] for k in range(d)]
+        else:
+            Mo = [P[k][ii[k]] * O1[k][:, ii[k], :] for k in range(d)]
+        kw = dict(P=[np.array(p_, dtype=float) for p_ in P] if mode in ('P', 'iP') else None, i=ii if mode in ('i', 'iP') else None)
+        for ltr in (False, True):
+            u = [None] * (d + 1)
+            if not ltr:
+                u[d] = np.array([1], dtype=object)
+                for k in range(d - 1, -1, -1):
+                    u[k] = Mo[k].dot(u[k + 1])
+            else:
+                u[0] = np.array([1], dtype=object)
+                for k in range(d):
+                    u[k + 1] = u[k].dot(Mo[k])
+            for norm in (None, 'natural', 'linalg'):
+                phi = teneva.interface(Y1, norm=norm, ltr=ltr, **kw)
+                if not isinstance(phi, list) or len(phi) != d + 1:
+                    return FAIL(f'interface: {len(phi)} vectors for d = {d}')
+                for k in sorted({0, 1, d // 3, d // 2, d - 1, d}):
+                    got = np.asarray(phi[k], dtype=float)
+                    if got.shape != (len(u[k]),):
+                        return FAIL(f'interface({mode}, {norm}, ltr={ltr}): phi[{k}] has shape {got.shape}')
+                    inner = (k < d) if not ltr else (k > 0)
+                    if not inner:
+                        if got[0] != 1:
+                            return FAIL(f'boundary vector phi[{k}] = {got}')
+                        continue
+                    if norm is None:
+                        want = [Fraction(x) for x in u[k]]
+                    elif norm == 'natural':
+                        den = nk ** ((d - k) if not ltr else k)
+                        want = [Fraction(x, den) for x in u[k]]
+                    else:
+                        if all(x == 0 for x in u[k]):
+                            continue                        # zero vector: no direction (weights can be zero at i)
+                        nu2 = sum(x * x for x in u[k])
+                        want = [Fraction(x) / Fraction(math.isqrt(nu2 << 200), 1 << 100) for x in u[k]]
+                    top = max(abs(x) for x in want)
+                    for j_, w_ in enumerate(want):
+                        msg = close(got[j_], w_, 4 * top, f'interface({mode}, norm={norm}, ltr={ltr}) phi[{k}][{j_}]')
+                        if msg:
+                            return FAIL(msg)
+    # ---- get_and_grad
+    val, grad = teneva.get_and_grad(Y1, ii)
+    msg = close(val, v1[3], v1[3], 'get_and_grad value')
+    if msg:
+        return FAIL(msg)
+    if not isinstance(grad, list) or len(grad) != d:
+        return FAIL('gradient is not a list of d cores')
+    for k in sorted({0, 1, d // 2, d - 2, d - 1}):
+        Gk = np.asarray(grad[k])
+        if Gk.shape != Y1[k].shape:
+            return FAIL(f'grad[{k}] shape {Gk.shape}')
+        mask = np.ones(nk, dtype=bool)
+        mask[ii[k]] = False
+        if np.any(Gk[:, mask, :] != 0):
+            return FAIL(f'grad[{k}] is non-zero off the index slice')
+        left = _ochain(O1, ii, 0, k) if k > 0 else np.array([[1]], dtype=object)
+        right = _ochain(O1, ii, k + 1, d) if k < d - 1 else np.array([[1]], dtype=object)
+        for a_ in range(Y1[k].shape[0]):
+            for b_ in range(Y1[k].shape[2]):
+                w_ = left[0, a_] * right[b_, 0]
+                msg = close(Gk[a_, ii[k], b_], w_, w_, f'grad[{k}][{a_},{ii[k]},{b_}]')
+                if msg:
+                    return FAIL(msg)
+    if gen.snapshot([Y1, Y2]) != snap:
+        return FAIL('argument cores were modified')
     return PASS
 
 
@@ -819,9 +1152,11 @@ def cases(tier, seed):
     sub = cfgs if big else cfgs[::3]
     for j, (n, r) in enumerate(sub):
         for kind in ('int', 'gauss'):
-            for mode in ('plain', 'P', 'Parr', 'Pflat', 'i', 'iarr', 'iP'):
+            for mode in ('plain', 'P', 'Parr', 'Pflat', 'PflatI', 'PflatA', 'P2d', 'i', 'iarr', 'iP'):
                 for norm in (None, 'linalg', 'natural', 'l', 'n'):
                     if norm in ('l', 'n') and mode not in ('plain', 'iP'):
+                        continue
+                    if mode in ('PflatI', 'PflatA', 'P2d') and (len(set(n)) != 1 or norm == 'linalg'):
                         continue
                     for ltr in (False, True):
                         yield 'C01.interface.vectors', dict(n=n, r=r, seed=j, kind=kind, order=ORDERS[(j + ltr) % 3],
@@ -844,6 +1179,44 @@ def cases(tier, seed):
     for d_, nk_ in ((40, 3), (63, 2), (64, 2), (65, 2), (80, 2), (28, 5)) + (((100, 3), (130, 2)) if big else ()):
         for s in range(3 if big else 2):
             yield 'C01.reductions.many_modes', dict(d=d_, nk=nk_, seed=s)
+        for s in range(3 if big else 1):
+            yield 'C01.algebra.many_modes', dict(d=d_, nk=nk_, seed=s)
+    # overall scale: every core times `scale` (totals 1e-80 .. 1e+100); mixed magnitudes for the binary operations
+    scaled = std + ['C01.add_sub_mul.number_forms']
+    for j, (n, r) in enumerate(cfgs if big else cfgs[1::4]):
+        for si, scale in enumerate(SCALES if big else (SCALES[j % len(SCALES)],)):
+            for kind in (('int', 'gauss') if big else (('gauss', 'int')[(j + si) % 2],)):
+                base = dict(n=n, r=r, seed=1000 + j, kind=kind, order=ORDERS[(j + si) % 3], scale=scale)
+                for cid in scaled:
+                    if cid not in ('C01.props.shape_ranks_size_erank', 'C01.copy.independent'):
+                        yield cid, dict(base)
+                yield 'C01.add_sub_mul.tensor_tensor', dict(base, scale2=1.0 / scale)
+                yield 'C01.add_sub_mul.tensor_tensor', dict(base, scale2=1.0)
+                for near in ('other', 'copy', 'scaled'):
+                    yield 'C01.accuracy.dense', dict(base, near=near)
+                yield 'C01.outer.dense', dict(base, n2=[[2, 3], [1, 2], [3, 1, 2]][j % 3])
+                yield 'C01.interface.vectors', dict(base, mode=('plain', 'P', 'i', 'iP')[j % 4],
+                                                    norm=(None, 'linalg', 'natural')[(j + si) % 3], ltr=bool((j + si) % 2))
+    # stabilised scalar product / norm (pair results), number operands of extreme modulus and numpy type
+    for j, (n, r) in enumerate(cfgs if big else cfgs[2::5]):
+        for kind in ('int', 'gauss'):
+            base = dict(n=n, r=r, seed=2000 + j, kind=kind, order=ORDERS[j % 3])
+            for ex in ((0, -60, 60, 200, -80, 240) if big else (0, -60, 200)):
+                yield 'C01.mul_scalar_norm.stab_pair', dict(base, ex=ex)
+            yield 'C01.add_sub_mul.number_forms', dict(base)
+    # large mode sizes (index arithmetic beyond one byte / 2^9 / 2^10)
+    large = [([513, 2], [1, 3, 1]), ([2, 700, 3], [1, 2, 3, 1]), ([1, 1030], [1, 1, 1]), ([600, 1, 3], [1, 2, 2, 1]),
+             ([2, 256], [1, 2, 1]), ([257, 3], [1, 4, 1])]
+    if big:
+        large += [([1500, 2], [1, 2, 1]), ([3, 2048], [1, 3, 1]), ([2, 512, 2, 2], [1, 2, 3, 2, 1]), ([255, 2, 2], [1, 2, 2, 1])]
+    for j, (n, r) in enumerate(large):
+        for kind in (('int', 'gauss') if (big or j < 2) else ('gauss',)):
+            base = dict(n=n, r=r, seed=3000 + j, kind=kind, order=ORDERS[j % 3])
+            for cid in std:
+                yield cid, dict(base)
+            yield 'C01.accuracy.dense', dict(base, near='other')
+            for mode, norm, ltr in (('plain', None, False), ('P', 'natural', True), ('i', 'linalg', False), ('iP', None, True)):
+                yield 'C01.interface.vectors', dict(base, mode=mode, norm=norm, ltr=ltr)
     # expression trees
     roots = [[2, 3], [3, 1], [2, 1, 3], [1, 1, 1], [2, 2, 2], [3, 2, 2, 2], [1, 2, 2, 1], [2, 3, 1, 2]]
     if big:
